@@ -154,8 +154,8 @@ def dict_method(ex, o, name, args, kwargs, line):
     if name == 'items':
         return [(k, v) for k, v in o.items()]
     if name == 'get':
-        k = ex.hashable(args[0])
-        return o.get(k, args[1] if len(args) > 1 else None)
+        k = ex.dict_find(o, args[0])
+        return o[k] if k is not None else (args[1] if len(args) > 1 else None)
     if name == 'update':
         ex.note_write(('D', id(o)), 'dict')
         if args:
@@ -165,15 +165,18 @@ def dict_method(ex, o, name, args, kwargs, line):
     if name == 'copy':
         return dict(o)
     if name == 'pop':
-        k = ex.hashable(args[0])
-        if k in o:
+        k = ex.dict_find(o, args[0])
+        if k is not None:
             return o.pop(k)
         if len(args) > 1:
             return args[1]
         ex.raise_exc('KeyError', repr(k), line)
     if name == 'setdefault':
-        k = ex.hashable(args[0])
-        return o.setdefault(k, args[1] if len(args) > 1 else None)
+        k = ex.dict_find(o, args[0])
+        if k is None:
+            k = ex.hashable(args[0])
+            o[k] = args[1] if len(args) > 1 else None
+        return o[k]
     if name == 'clear':
         o.clear()
         return None
